@@ -1,5 +1,6 @@
 mod common;
 mod c14;
+mod c03;
 mod c10;
 mod c17;
 mod wire;
@@ -26,6 +27,7 @@ fn main() {
         "version" => println!("{}", pgp::VERSION),
         "c14" => c14::run(&cases, &out, &tier, seed),
         "c10" => c10::run(&cases, &out, &tier, seed),
+        "c03" => c03::run(&cases, &out, &tier, seed),
         "c17" => c17::run(&cases, &out, &tier, seed),
         other => {
             eprintln!("unknown check {other}");
